@@ -358,6 +358,9 @@ func genIngress(g *Rng, tier string) *Plan {
 			st.Edits = append(st.Edits, c05GenEdit(g, &st, flat, k.MaxIssueDelayMs)...)
 		}
 		if g.Bool(0.2) {
+			st.Edits = append(st.Edits, c05Edit{Op: "add-conditions", Value: Pick(g, "2099-01-01T00:00:00Z", "9999-12-31T23:59:59Z", "2000-01-02T00:00:00Z")})
+		}
+		if g.Bool(0.2) {
 			st.Edits = append(st.Edits, c05Edit{Op: Pick(g, "indent", "reprefix")})
 		}
 		p.Steps = append(p.Steps, mustJSON(st))
@@ -580,6 +583,13 @@ func c05Apply(doc *etree.Document, e c05Edit, idpNow time.Time) {
 				root.RemoveChild(c)
 			}
 		}
+	case "add-conditions":
+		// the (unsigned) request carries a Conditions element of its own, promising validity far into the future:
+		// when a request is too old to be answered is the IdP's decision (IssueInstant + MaxIssueDelay)
+		c := root.CreateElement("saml:Conditions")
+		c.CreateAttr("xmlns:saml", "urn:oasis:names:tc:SAML:2.0:assertion")
+		c.CreateAttr("NotBefore", "1990-01-01T00:00:00Z")
+		c.CreateAttr("NotOnOrAfter", e.Value)
 	case "indent":
 		// the same request as another SP implementation would serialise it: line breaks and indentation between elements
 		doc.Indent(2)
